@@ -402,6 +402,46 @@ def _transpose(it, args, kwargs):
     return _m_transpose(it, as_array(args[0]), args[1:], kwargs)
 
 
+@handler("numpy.swapaxes")
+def _swapaxes(it, args, kwargs):
+    return np.swapaxes(as_array(args[0]), _toint(args[1]), _toint(args[2]))
+
+
+@handler("numpy.tensordot")
+def _tensordot(it, args, kwargs):
+    """sum of products over the paired axes, with symbolic entries (numpy's own axis bookkeeping via moveaxis/reshape, the arithmetic by
+    the scalar model)"""
+    a, b = as_array(args[0]), as_array(args[1])
+    axes = kwargs.get("axes", args[2] if len(args) > 2 else 2)
+    if isinstance(axes, int):
+        ax_a, ax_b = list(range(a.ndim - axes, a.ndim)), list(range(axes))
+    else:
+        ax_a, ax_b = axes
+        ax_a = [_toint(x) for x in (ax_a if isinstance(ax_a, (list, tuple)) else [ax_a])]
+        ax_b = [_toint(x) for x in (ax_b if isinstance(ax_b, (list, tuple)) else [ax_b])]
+    ax_a = [x % a.ndim for x in ax_a]
+    ax_b = [x % b.ndim for x in ax_b]
+    free_a = [i for i in range(a.ndim) if i not in ax_a]
+    free_b = [i for i in range(b.ndim) if i not in ax_b]
+    at = np.transpose(a, free_a + ax_a)
+    bt = np.transpose(b, ax_b + free_b)
+    sa = [a.shape[i] for i in free_a]
+    sb = [b.shape[i] for i in free_b]
+    k = int(np.prod([a.shape[i] for i in ax_a])) if ax_a else 1
+    if [a.shape[i] for i in ax_a] != [b.shape[i] for i in ax_b]:
+        raise PyExc("ValueError", ("shape-mismatch for sum",))
+    A2 = at.reshape(int(np.prod(sa)) if sa else 1, k)
+    B2 = bt.reshape(k, int(np.prod(sb)) if sb else 1)
+    out = np.empty((A2.shape[0], B2.shape[1]), dtype=object)
+    for i in range(A2.shape[0]):
+        for j in range(B2.shape[1]):
+            acc = 0
+            for t in range(k):
+                acc = binop(it, ast.Add(), acc, binop(it, ast.Mult(), A2[i, t], B2[t, j]))
+            out[i, j] = acc
+    return out.reshape(sa + sb)
+
+
 @handler("numpy.moveaxis")
 def _moveaxis(it, args, kwargs):
     return np.moveaxis(as_array(args[0]), _conv_ax(args[1]), _conv_ax(args[2]))
